@@ -241,6 +241,43 @@ func c09Run(c *Ctx) {
 			}
 		}
 	}
+	// hundreds of thousands of *distinct* words in one text, each followed by its repetition later on: every lexeme is
+	// the piece of text it was scanned from (whatever table, pool or cache the scanner keeps must not confuse two words)
+	for vi, nw := range []int{c.N(300000, 1500000), c.N(300000, 1500000)} {
+		var b strings.Builder
+		// pseudo-random spellings of 6-12 characters (short systematic ones happen to be collision-free under common 32-bit hashes)
+		wr := c.Rand(fmt.Sprint("words", vi))
+		alpha := []rune("abcdefghijklmnopqrstuvwxyz_0123456789")
+		if vi == 1 {
+			alpha = []rune("\u0995\u0996\u0997\u0998\u099a\u099b\u099c\u099f\u09a4\u09a6\u09a8\u09aa\u09ac\u09ae\u09b0\u09b2\u09b8\u09b9\u09be\u09bf\u09c0\u09c1\u09c7\u09cb\u09cd_\u09e7\u09e8")
+		}
+		words := make([]string, nw)
+		for i := range words {
+			w := make([]rune, 6+wr.Intn(7))
+			for j := range w {
+				w[j] = alpha[wr.Intn(len(alpha))]
+			}
+			if vi == 0 && w[0] >= '0' && w[0] <= '9' || vi == 1 && (w[0] >= 0x09be && w[0] <= 0x09cd || w[0] >= 0x09e6) {
+				w[0] = alpha[0]
+			}
+			words[i] = string(w)
+		}
+		word := func(i int) string { return words[i] }
+		for i := 0; i < nw; i++ {
+			b.WriteString(word(i))
+			if i%12 == 11 {
+				b.WriteString("\n")
+			} else {
+				b.WriteString(" ")
+			}
+		}
+		for i := nw - 1; i >= 0; i -= 7 {
+			b.WriteString(word(i) + ";")
+		}
+		if c.Mine() {
+			c09Judge(c, &Case{Gen: "sizes", Src: b.String(), X: map[string]string{"distinct_words": fmt.Sprint(nw)}})
+		}
+	}
 	for _, n := range []int{1022, 1023, 1024, 1025, 4096, 5000, 20000, 70000} {
 		for _, src := range []string{
 			"a = \"" + strings.Repeat("s", n) + "\"; b", "\"" + strings.Repeat("line\n", n/5) + "\" x", "\"" + strings.Repeat("\u0995\u09a5\u09be ", n/4) + "\"\n\"next\"", "\"" + strings.Repeat("q", n), // the last one is unterminated
